@@ -107,8 +107,12 @@ JudgeDist(cfg, ev) ==
         made  == IF early THEN {} ELSE { ArchiveName(cfg, f) : f \in Rng(o.formats) }
         names == { a.name : a \in Rng(obs.arch) }
         oran  == obs.ran
+        gate  == ~exp.ok /\ exp.why \in {"BadFormat", "Dirty", "SubprojectDirty"}
     IN
     IF obs.crash THEN V("NoCrash", obs.crashtype \o (IF o.subs THEN " with --include-subprojects" ELSE ""), {}, {})
+    \* the operation must stop at the gate (bad --formats, uncommitted changes): non-zero exit, nothing staged, run or archived
+    ELSE IF gate /\ (obs.rc = 0 \/ oran # <<>> \/ obs.tests # <<>> \/ names # { a.name : a \in Rng(ev.before) })
+         THEN V(exp.why \o "IsError", IF o.dirty THEN "--allow-dirty" ELSE "", {}, { r.id : r \in Rng(oran) })
     ELSE IF ~exp.ok /\ obs.rc = 0
          THEN V(CASE exp.why = "BadFormat" -> "BadFormatIsError" [] exp.why = "Dirty" -> "DirtyIsError"
                   [] exp.why = "SubprojectDirty" -> "SubprojectDirtyIsError" [] exp.why = "ScriptFailed" -> "ScriptFailureAborts"
@@ -119,9 +123,10 @@ JudgeDist(cfg, ev) ==
     ELSE IF obs.srcdiff # <<>> THEN V("SourceUntouched", "", {}, Rng(obs.srcdiff))
     ELSE IF obs.blddiff # <<>> THEN V("BuildDirUntouched", "", {}, Rng(obs.blddiff))
     ELSE IF [j \in 1..Len(oran) |-> oran[j].id] # [j \in 1..Len(exp.ran) |-> exp.ran[j].id]
-         THEN V(IF exp.why = "ScriptFailed" /\ Len(oran) > Len(exp.ran) THEN "ScriptFailureAborts"
+         THEN V(IF exp.why = "ScriptMissingInStaging" /\ Len(oran) > Len(exp.ran) THEN "ScriptMissingInStagingIsError"
+                ELSE IF exp.why = "ScriptFailed" /\ Len(oran) > Len(exp.ran) THEN "ScriptFailureAborts"
                 ELSE IF \E j \in 1..Len(oran) : \E sc \in Rng(cfg.scripts) : sc.id = oran[j].id /\ sc.owner # "" /\ ~o.subs THEN "SubprojectScriptsOnlyWhenIncluded"
-                ELSE "ScriptsInOrder", "", { r.id : r \in Rng(exp.ran) } \ { r.id : r \in Rng(oran) }, { r.id : r \in Rng(oran) } \ { r.id : r \in Rng(exp.ran) })
+                ELSE "ScriptsInOrder", IF exp.why = "ScriptMissingInStaging" /\ o.dirty THEN "--allow-dirty" ELSE "", { r.id : r \in Rng(exp.ran) } \ { r.id : r \in Rng(oran) }, { r.id : r \in Rng(oran) } \ { r.id : r \in Rng(exp.ran) })
     ELSE IF \E j \in 1..Len(oran) : oran[j].tag # exp.ran[j].tag
          THEN LET j == CHOOSE j \in 1..Len(oran) : oran[j].tag # exp.ran[j].tag IN
               V("ScriptFromStaging", "the script that ran is the one in the " \o Origin(S, oran[j].tag), {exp.ran[j].tag}, {oran[j].tag})
